@@ -32,12 +32,11 @@ theorem window_bits_accepted (wb : Int) (h1 : -2147483648 < wb) (h2 : wb ≤ 214
     have h31 : ((2:Int) ^ (32 - 1)) = 2147483648 := by decide
     rw [this, h31]
     split <;> omega
-  simp only [Id.run, pure, hd, hneg, Bool.and_eq_false_iff, bne_eq_false_iff_eq]
-  constructor
-  · rintro (h | h) <;> omega
-  · rintro (h | h)
-    · left; exact h
-    · right; omega
+  -- Bool to Prop, then linear arithmetic: independent of how the source spells the test
+  -- (`a != D && -a != D`, `!(a == D || -a == D)`, …)
+  simp only [Id.run, pure, hd, hneg, ← Bool.not_eq_true, Bool.and_eq_true, Bool.or_eq_true, Bool.not_eq_true',
+    beq_iff_eq, bne_iff_ne, ne_eq]
+  omega
 
 /-- Stream calls accept exactly the flush values 0..4 — for every i32 value. -/
 theorem flush_accepted (f : Int) :
